@@ -142,6 +142,10 @@ pub enum Ev {
     Shape(u32, Vec<Vec<usize>>, usize, Option<usize>),
     CtlIn(u32, bool, Option<usize>),
     CtlOut(u32),
+    /// markers written by harness controllers around every inner dispatch
+    InnerStart(u32),
+    InnerEnd(u32),
+    Note(String),
 }
 
 /// points at which a system reports to the scheduler
@@ -163,6 +167,8 @@ pub struct Recorder {
     pub sched: Mutex<Arc<dyn Sched>>,
     pub map: MapMode,
     pub clock: AtomicU64,
+    /// twin runs: harness controllers dispatch their inner dispatcher sequentially
+    pub seq_inner: AtomicBool,
 }
 
 impl Recorder {
@@ -175,6 +181,7 @@ impl Recorder {
             sched: Mutex::new(Arc::new(FreeRun)),
             map,
             clock: AtomicU64::new(0),
+            seq_inner: AtomicBool::new(false),
         })
     }
     pub fn push(&self, e: Ev) {
@@ -210,6 +217,14 @@ pub fn worker_index() -> Option<usize> {
 
 // ---------------------------------------------------------------------------------------
 // dynamic harness system
+
+/// logs the end of a window when dropped (also during unwinding)
+pub struct EndGuard { pub tag: u32, pub rec: Arc<Recorder>, pub ctl: bool }
+impl Drop for EndGuard {
+    fn drop(&mut self) {
+        if self.ctl { self.rec.push(Ev::CtlOut(self.tag)); } else { self.rec.push(Ev::R(self.tag)); }
+    }
+}
 
 pub struct HAccessor {
     pub tag: u32,
@@ -374,6 +389,7 @@ macro_rules! menu_sys {
             type SystemData = $data;
             fn run(&mut self, _d: Self::SystemData) {
                 self.rec.push(Ev::F(self.tag, self.rec.on_caller(), worker_index()));
+                let _end = EndGuard { tag: self.tag, rec: self.rec.clone(), ctl: false };
                 self.rec.at(self.tag, Point::Run);
                 self.runs.fetch_add(1, Ordering::SeqCst);
                 if self.rec.faulty(self.tag) {
@@ -381,7 +397,6 @@ macro_rules! menu_sys {
                     panic!("injected panic {}", self.tag);
                 }
                 self.rec.at(self.tag, Point::Release);
-                self.rec.push(Ev::R(self.tag));
             }
             fn running_time(&self) -> RunningTime { running_time(self.time) }
             fn setup(&mut self, world: &mut World) {
@@ -412,7 +427,7 @@ pub struct HTl {
     pub reads: Vec<u32>,
     pub writes: Vec<u32>,
     pub rec: Arc<Recorder>,
-    pub state: u64,
+    pub state: Arc<AtomicU64>,
     pub runs: Arc<AtomicU64>,
     pub _not_send: PhantomData<*const ()>,
 }
@@ -420,6 +435,7 @@ impl<'a> RunNow<'a> for HTl {
     fn run_now(&mut self, world: &'a World) {
         self.rec.at(self.tag, Point::Fetch);
         self.rec.push(Ev::F(self.tag, self.rec.on_caller(), worker_index()));
+        let _end = EndGuard { tag: self.tag, rec: self.rec.clone(), ctl: false };
         let mut g = acquire(world, &self.rec, self.tag, &self.reads, &self.writes);
         self.rec.at(self.tag, Point::Run);
         self.runs.fetch_add(1, Ordering::SeqCst);
@@ -428,10 +444,11 @@ impl<'a> RunNow<'a> for HTl {
             drop(g);
             panic!("injected panic {}", self.tag);
         }
-        compute(self.tag, &mut self.state, &mut g);
+        let mut st = self.state.load(Ordering::SeqCst);
+        compute(self.tag, &mut st, &mut g);
+        self.state.store(st, Ordering::SeqCst);
         self.rec.at(self.tag, Point::Release);
         drop(g);
-        self.rec.push(Ev::R(self.tag));
     }
     fn setup(&mut self, world: &mut World) {
         self.rec.push(Ev::Setup(self.tag));
@@ -457,6 +474,7 @@ pub struct Ctl<const M: usize> {
 fn ctl_run(tag: u32, count: u32, rec: &Arc<Recorder>, world: &World, dispatcher: &mut Dispatcher) {
     rec.at(tag, Point::Fetch);
     rec.push(Ev::CtlIn(tag, rec.on_caller(), worker_index()));
+    let _end = EndGuard { tag, rec: rec.clone(), ctl: true };
     rec.at(tag, Point::Run);
     if rec.faulty(tag) {
         rec.push(Ev::P(tag));
@@ -473,11 +491,17 @@ fn ctl_run(tag: u32, count: u32, rec: &Arc<Recorder>, world: &World, dispatcher:
         dispatcher.dispatch_thread_local(world);
     } else {
         for _ in 0..count {
-            dispatcher.dispatch(world);
+            rec.push(Ev::InnerStart(tag));
+            if rec.seq_inner.load(Ordering::SeqCst) {
+                dispatcher.dispatch_seq(world);
+                dispatcher.dispatch_thread_local(world);
+            } else {
+                dispatcher.dispatch(world);
+            }
+            rec.push(Ev::InnerEnd(tag));
         }
     }
     rec.at(tag, Point::Release);
-    rec.push(Ev::CtlOut(tag));
 }
 
 macro_rules! ctl_impl {
@@ -492,7 +516,13 @@ macro_rules! ctl_impl {
         impl<$lt> MultiDispatchController<$lt> for Multi<$m> {
             type SystemData = $data;
             fn plan(&mut self, _d: Self::SystemData) -> usize {
+                self.rec.at(self.tag, Point::Fetch);
                 self.rec.push(Ev::CtlIn(self.tag, self.rec.on_caller(), worker_index()));
+                self.rec.at(self.tag, Point::Run);
+                if self.rec.faulty(self.tag) {
+                    self.rec.push(Ev::P(self.tag));
+                    panic!("injected panic {}", self.tag);
+                }
                 if self.rec.identify.load(Ordering::SeqCst) { 1 } else { self.count as usize }
             }
         }
@@ -619,9 +649,11 @@ fn build_level(
             Reg::Tl { tag, reads, writes } => {
                 let runs = Arc::new(AtomicU64::new(0));
                 out.handles.runs.insert(*tag, runs.clone());
+                let state = Arc::new(AtomicU64::new(*tag as u64));
+                out.handles.states.insert(*tag, state.clone());
                 b.add_thread_local(HTl {
                     tag: *tag, reads: reads.clone(), writes: writes.clone(), rec: rec.clone(),
-                    state: *tag as u64, runs, _not_send: PhantomData,
+                    state, runs, _not_send: PhantomData,
                 });
                 out.calls += 1;
             }
